@@ -43,6 +43,10 @@
      keep every field but the duration, and the only unit that can disappear is the look-ahead unit of a
      non-leading track while the presentation has not started; c01_spec_unit_negative: a unit before -10 s
      changes nothing); c01_accounting_nonvacuous runs it on the example history.
+   - c01_mpegts_history_accounting: the same for the MPEG-TS variant (specification tspec in Model/MuxSpec.v: one
+     log without look-ahead, "random access seen" per track, "the presentation has started"): for every
+     configuration Start accepts and every history of successful writes the model's log, flags and openness
+     are the specification's; c01_mpegts_accounting_nonvacuous.
    PARTIAL in one respect, decided on every run by the correspondence run (every decoded sample of
    every published part / segment is compared with the model's, all six codecs) and by the oracle
    over the harness's own write log: that the bytes served for a part / segment decode to the
@@ -50,7 +54,7 @@
    are outside the model). *)
 From Coq Require Import List ZArith Bool.
 From GoHls Require Import Model.Mux Proofs.MuxStream Proofs.MuxLift Proofs.MuxWindow Proofs.MuxHistory
-  Proofs.MuxPlaylist Proofs.MuxSamples Proofs.MuxLog Proofs.MuxLogStep Proofs.MuxLogTS Proofs.MuxPartIds Proofs.MuxChain Proofs.MuxRAStart Proofs.MuxAuditAdds Model.MuxSpec Proofs.MuxAccount.
+  Proofs.MuxPlaylist Proofs.MuxSamples Proofs.MuxLog Proofs.MuxLogStep Proofs.MuxLogTS Proofs.MuxPartIds Proofs.MuxChain Proofs.MuxRAStart Proofs.MuxAuditAdds Model.MuxSpec Proofs.MuxAccount Proofs.MuxTSStart Proofs.MuxAccountTS.
 Import ListNotations.
 Local Open Scope Z_scope.
 
@@ -239,3 +243,22 @@ Theorem c01_accounting_nonvacuous : exists m0,
      /\ sp_open sp = true.
 Proof. exact account_example. Qed.
 Print Assumptions c01_accounting_nonvacuous.
+
+(* ---- the same for the MPEG-TS variant ---- *)
+Theorem c01_mpegts_history_accounting : forall c m0 ops,
+  start c = Ok m0 -> c_variant c = MPEGTS -> all_ok m0 ops ->
+  let T0 := map tk_static (m_tracks m0) in
+  let sp := tsp_run T0 (tsp_init (length T0)) ops in
+  let m := mux_run m0 ops in
+  tslog m = tp_log sp /\ ts_opened m = tp_open sp /\ map tk_firstRA (m_tracks m) = tp_seen sp.
+Proof. exact ts_history_accounting. Qed.
+Print Assumptions c01_mpegts_history_accounting.
+
+Theorem c01_mpegts_accounting_nonvacuous : exists m0,
+  start ts_cfg = Ok m0 /\ c_variant ts_cfg = MPEGTS /\ all_ok m0 ts_ops
+  /\ let T0 := map tk_static (m_tracks m0) in
+     let sp := tsp_run T0 (tsp_init (length T0)) ts_ops in
+     tp_open sp = true /\ map (fun u => (u_track u, u_ra u, u_dts u)) (tp_log sp)
+       = [(0%nat, true, 45000); (1%nat, true, 45000); (0%nat, false, 90000); (0%nat, true, 135000); (1%nat, true, 90000); (0%nat, false, 180000)].
+Proof. exact ts_account_example. Qed.
+Print Assumptions c01_mpegts_accounting_nonvacuous.
